@@ -237,6 +237,42 @@ func (m *RWMutex) RUnlock() {
 	m.readers--
 }
 
+func (m *RWMutex) TryLock() bool {
+	_, t := simrt.Current()
+	if t == nil {
+		return m.real.TryLock()
+	}
+	Ops++
+	simrt.Yield("RWMutex.TryLock")
+	if m.writer || m.readers != 0 {
+		return false
+	}
+	m.writer = true
+	return true
+}
+
+func (m *RWMutex) TryRLock() bool {
+	_, t := simrt.Current()
+	if t == nil {
+		return m.real.TryRLock()
+	}
+	Ops++
+	simrt.Yield("RWMutex.TryRLock")
+	if m.writer {
+		return false
+	}
+	m.readers++
+	return true
+}
+
+type rlocker RWMutex
+
+func (r *rlocker) Lock()   { (*RWMutex)(r).RLock() }
+func (r *rlocker) Unlock() { (*RWMutex)(r).RUnlock() }
+
+// RLocker returns a Locker whose Lock and Unlock are RLock and RUnlock.
+func (m *RWMutex) RLocker() sync.Locker { return (*rlocker)(m) }
+
 // Map yields before every operation; the data lives in a real sync.Map.
 type Map struct{ m sync.Map }
 
